@@ -195,4 +195,211 @@ theorem cev_all (hs : List Nat) (s : St) (dis : Bool) (ev : Ev) (hc : s.cursor <
       xs [runCaptureEvent, runHandler, expBodies, roEv, roSmall, cevParts, cev0, cev1, cev2, ht, ht']
   · xs [runCaptureEvent, runHandler, expBodies, roEv, roSmall, cevParts, cev0, cev1, cev2]
 
+/-! ### insertChildren -/
+
+def insBody : Stmt := match ins3 with | .loop _ b _ => b | _ => .skip
+def insCond : Expr := match ins3 with | .loop c _ _ => c | _ => .none
+
+theorem ins3_eq : ins3 = .loop insCond insBody .skip := rfl
+
+/-- The locals after one iteration of the loop of `insertChildren` that inserted widget `t` of height
+    `h` at row `r`. -/
+def insRho (t h : Nat) (r : Int) (ρ : List (String × Int)) : List (String × Int) :=
+  ("v8.Surface.Widget", (t : Int)) :: ("v8.Surface.Size.Height", (h : Int)) :: ("v8.Origin.Row", r) :: ("v2", r) ::
+  ("v7", 0) :: ("v6.Widget", (t : Int)) :: ("v6.Size.Height", (h : Int)) :: ("v5.Draw.Widget", (t : Int)) ::
+  ("v5.Draw.Size.Height", (h : Int)) :: ("v5", 1) :: ("v4", 1) :: ρ
+
+theorem ins_cond (R : Ro) (st : St) (acc : List Child) (ρ : List (String × Int)) (tag : String) (ah : Int)
+    (hv : lookup ρ "v2" = some ah) :
+    evB R ⟨st, acc, ρ, [], tag⟩ insCond = some (decide (ah > 0)) := by
+  xs [insCond, ins3, hv]
+
+theorem ins_body_nil (R : Ro) (hs : List Nat) (hb : R.b = builder hs) (st : St) (acc : List Child) (ρ : List (String × Int))
+    (tag : String) (F : Nat) (hbt : builder hs st.top = none) :
+    exec R insBody F ⟨st, acc, ρ, [], tag⟩ = .ok (⟨st, acc, ("v5", 0) :: ("v4", 1) :: ρ, [], tag⟩, .brk) := by
+  xs [insBody, ins3, hb, hbt]
+
+theorem ins_body_stop (R : Ro) (hs : List Nat) (hb : R.b = builder hs) (st : St) (acc : List Child) (ρ : List (String × Int))
+    (tag : String) (F : Nat) (ah : Int) (h : Nat) (hv : lookup ρ "v2" = some ah) (hbt : builder hs st.top = some h)
+    (hstop : st.top = 0 ∨ ah - (↑h + R.gap) ≤ 0) :
+    exec R insBody F ⟨st, acc, ρ, [], tag⟩ =
+      .ok (⟨st, { idx := st.top, row := ah - (↑h + R.gap), height := h } :: acc, insRho st.top h (ah - (↑h + R.gap)) ρ, [], tag⟩, .brk) := by
+  rcases hstop with h0 | h2
+  · have hbt0 := hbt
+    rw [h0] at hbt0
+    xs [insBody, ins3, hb, hv, hbt0, h0, insRho]
+  · by_cases h0 : st.top = 0
+    · have hbt0 := hbt
+      rw [h0] at hbt0
+      xs [insBody, ins3, hb, hv, hbt0, h0, insRho]
+    · have h0' : ¬ ((st.top : Int) = 0) := by omega
+      xs [insBody, ins3, hb, hv, hbt, h0, h0', h2, insRho]
+
+theorem ins_body_go (R : Ro) (hs : List Nat) (hb : R.b = builder hs) (st : St) (acc : List Child) (ρ : List (String × Int))
+    (tag : String) (F : Nat) (ah : Int) (h x : Nat) (hv : lookup ρ "v2" = some ah) (hbt : builder hs st.top = some h)
+    (hx : usubI ↑st.top 1 = ↑x) (hxl : x < 2 ^ 64) (hgo : ¬ (st.top = 0 ∨ ah - (↑h + R.gap) ≤ 0)) :
+    exec R insBody F ⟨st, acc, ρ, [], tag⟩ =
+      .ok (⟨{ st with top := x }, { idx := st.top, row := ah - (↑h + R.gap), height := h } :: acc,
+            insRho st.top h (ah - (↑h + R.gap)) ρ, [], tag⟩, .norm) := by
+  have h0 : ¬ (st.top = 0) := by omega
+  have h0' : ¬ ((st.top : Int) = 0) := by omega
+  have h2 : ¬ (ah - (↑h + R.gap) ≤ 0) := by omega
+  xs [insBody, ins3, hb, hv, hbt, hx, toUint_cast _ hxl, h0, h0', h2, insRho]
+
+theorem usub_one (t : Nat) (h0 : t ≠ 0) (hlt : t < 2 ^ 64) : usub t 1 = t - 1 := by
+  unfold usub; rw [U_nat]; omega
+
+theorem ins_loop (R : Ro) (hs : List Nat) (hb : R.b = builder hs) :
+    ∀ (n : Nat) (st : St) (acc : List Child) (ρ : List (String × Int)) (tag : String) (F : Nat) (ah : Int),
+      st.top < 2 ^ 64 → st.top < n → st.top + 2 ≤ F → lookup ρ "v2" = some ah →
+      ∃ ρ', loopN (fun m => evB R m insCond) (exec R insBody) (exec R .skip) F ⟨st, acc, ρ, [], tag⟩ =
+          .ok (⟨{ st with top := (insertLoop true R.gap hs n st.top ah acc).1 },
+                (insertLoop true R.gap hs n st.top ah acc).2.2, ρ', [], tag⟩, .norm) ∧
+        lookup ρ' "v2" = some (insertLoop true R.gap hs n st.top ah acc).2.1 := by
+  intro n
+  induction n with
+  | zero => intro st acc ρ tag F ah _ h; omega
+  | succ n ih =>
+    intro st acc ρ tag F ah hlt hn hF hv
+    obtain ⟨F', rfl⟩ : ∃ F', F = F' + 1 := ⟨F - 1, by omega⟩
+    rw [loopN]
+    simp only [ins_cond R st acc ρ tag ah hv]
+    unfold insertLoop
+    by_cases hah : ah > 0
+    · simp only [hah, decide_true, ↓reduceIte]
+      cases hbt : builder hs st.top with
+      | none =>
+        rw [ins_body_nil R hs hb st acc ρ tag F' hbt]
+        exact ⟨_, rfl, by simp [lookup, hv]⟩
+      | some h =>
+        simp only []
+        by_cases hstop : st.top = 0 ∨ ah - (↑h + R.gap) ≤ 0
+        · rw [ins_body_stop R hs hb st acc ρ tag F' ah h hv hbt hstop]
+          have hm : (st.top = 0 ∨ (True ∧ ah - (↑h + R.gap) ≤ 0)) := hstop.imp id (fun h => ⟨trivial, h⟩)
+          simp only [hm, ↓reduceIte]
+          exact ⟨_, rfl, by simp [insRho, lookup]⟩
+        · rw [ins_body_go R hs hb st acc ρ tag F' ah h (usub st.top 1) hv hbt (toUintI_sub1 _ hlt) (usub_lt _ _) hstop]
+          have hm : ¬ (st.top = 0 ∨ (True ∧ ah - (↑h + R.gap) ≤ 0)) := fun h => hstop (h.imp id (fun h => h.2))
+          simp only [hm, ↓reduceIte, exec]
+          have h0 : st.top ≠ 0 := fun h => hstop (Or.inl h)
+          have hu := usub_one st.top h0 hlt
+          obtain ⟨ρ', h1, h2⟩ := ih { st with top := usub st.top 1 } ({ idx := st.top, row := ah - (↑h + R.gap), height := h } :: acc)
+            (insRho st.top h (ah - (↑h + R.gap)) ρ) tag F' (ah - (↑h + R.gap)) (usub_lt _ _)
+            (by show usub st.top 1 < n; omega) (by show usub st.top 1 + 2 ≤ F'; omega) (by simp [insRho, lookup])
+          exact ⟨ρ', h1, h2⟩
+    · simp only [hah, decide_false, ↓reduceIte]
+      exact ⟨ρ, rfl, hv⟩
+
+/-! #### the restacking loop of `insertChildren` -/
+
+def rsBody : Stmt := match ins5 with | .ite _ (.seq _ (.seq _ (.seq (.range _ _ b) _))) _ => b | _ => .skip
+
+def rsRho (i : Nat) (c : Child) (row g : Int) (ρ : List (String × Int)) : List (String × Int) :=
+  ("v9", row + (↑c.height + g)) :: ("v11.Origin.Row", row) :: ("v11.Surface.Widget", (c.idx : Int)) ::
+  ("v11.Surface.Size.Height", (c.height : Int)) :: ("v11.Origin.Row", c.row) :: ("v10", (i : Int)) :: ρ
+
+theorem rs_body (R : Ro) (st : St) (cs : List Child) (ρ : List (String × Int)) (tag : String)
+    (F : Nat) (i : Nat) (c : Child) (row : Int) (hi : i < cs.length) (hv : lookup ρ "v9" = some row) :
+    exec R rsBody F (bindChild (VaxisModel.Model.DynExec.bind ⟨st, cs, ρ, [], tag⟩ "v10" i) "v11" c) =
+      .ok (⟨st, cs.set i { c with row := row }, rsRho i c row R.gap ρ, [], tag⟩, .norm) := by
+  have hi' : ¬ (cs.length ≤ i) := by omega
+  have hneg : ¬ ((i : Int) < 0) := by omega
+  xs [rsBody, ins5, hv, hi', hneg, setAt, rsRho]
+
+theorem restack_range (R : Ro) (st : St) (tag : String) (F : Nat) :
+    ∀ (suf pre : List Child) (ρ : List (String × Int)) (row : Int), lookup ρ "v9" = some row →
+      ∃ ρ', rangeN "v10" "v11" (exec R rsBody F) suf.length pre.length ⟨st, pre ++ suf, ρ, [], tag⟩ =
+        .ok (⟨st, pre ++ restack R.gap row suf, ρ', [], tag⟩, .norm) := by
+  intro suf
+  induction suf with
+  | nil => intro pre ρ row _; exact ⟨ρ, rfl⟩
+  | cons c rest ih =>
+    intro pre ρ row hv
+    have hget : (pre ++ c :: rest)[pre.length]? = some c := by simp
+    have hlen : pre.length < (pre ++ c :: rest).length := by simp
+    simp only [List.length_cons, rangeN, hget]
+    rw [rs_body R st (pre ++ c :: rest) ρ tag F pre.length c row hlen hv]
+    simp only []
+    have hset : (pre ++ c :: rest).set pre.length { c with row := row } = (pre ++ [{ c with row := row }]) ++ rest := by
+      simp
+    rw [hset]
+    obtain ⟨ρ', h⟩ := ih (pre ++ [{ c with row := row }]) (rsRho pre.length c row R.gap ρ) (row + (↑c.height + R.gap))
+      (by simp [rsRho, lookup])
+    refine ⟨ρ', ?_⟩
+    have hl : (pre ++ [{ c with row := row }]).length = pre.length + 1 := by simp
+    rw [hl] at h
+    rw [h]
+    simp [restack]
+
+/-! #### the whole of `insertChildren` -/
+
+theorem seqOf_cons (R : Ro) (a : Stmt) (r : List Stmt) (f : Nat) (m : M) :
+    exec R (seqOf (a :: r)) f m = (match exec R a f m with
+      | .ok (m', .norm) => exec R (seqOf r) f m'
+      | x => x) := by
+  simp only [seqOf, exec]
+  rfl
+
+def ins5c : Expr := match ins5 with | .ite c _ _ => c | _ => .none
+def ins5a : Stmt := match ins5 with | .ite _ (.seq a _) _ => a | _ => .skip
+def ins5b : Stmt := match ins5 with | .ite _ (.seq _ (.seq a _)) _ => a | _ => .skip
+def ins5r : Stmt := match ins5 with | .ite _ (.seq _ (.seq _ (.seq _ (.seq a _)))) _ => a | _ => .skip
+theorem ins5_eq : ins5 = .ite ins5c (.seq ins5a (.seq ins5b (.seq (.range "v10" "v11" rsBody) (.seq ins5r .skip)))) .skip := rfl
+
+theorem ins_tail (R : Ro) (st : St) (cs : List Child) (ρ : List (String × Int)) (tag : String) (F : Nat) (a : Int)
+    (hv : lookup ρ "v2" = some a) :
+    proj (exec R (seqOf [ins4, ins5, ins6]) F ⟨st, cs, ρ, [], tag⟩) =
+      some (if st.top = 0 ∧ a > 0 then ({ st with offset := 0 }, restack R.gap 0 cs, .ret [0])
+            else ({ st with offset := a }, cs, .ret [0])) := by
+  by_cases h : st.top = 0 ∧ a > 0
+  · obtain ⟨ht, ha⟩ := h
+    obtain ⟨cursor, top, offset, pending, wants⟩ := st
+    simp only at ht
+    subst ht
+    obtain ⟨ρ', hr⟩ := restack_range R ⟨cursor, 0, 0, pending, wants⟩ tag F cs [] (("v9", 0) :: ρ) 0 (by simp [lookup])
+    simp only [List.nil_append, List.length_nil] at hr
+    rw [ins5_eq]
+    xs [ins4, ins5c, ins5a, ins5b, ins5r, ins5, ins6, hv, ha, proj]
+    rw [hr]
+  · by_cases h0 : st.top = 0
+    · have h2 : ¬ (a > 0) := fun h' => h ⟨h0, h'⟩
+      have h2' : ¬ (0 < a) := h2
+      xs [ins4, ins5, ins6, hv, h, h0, h2, h2', proj]
+    · have h1 : ¬ ((st.top : Int) = 0) := by omega
+      xs [ins4, ins5, ins6, hv, h, h0, h1, proj]
+
+theorem exec_loop (R : Ro) (c : Expr) (b p : Stmt) (f : Nat) (m : M) :
+    exec R (.loop c b p) f m = loopN (fun m => evB R m c) (exec R b) (exec R p) f m := rfl
+
+def insRho0 (dc : Bool) (ah : Int) : List (String × Int) :=
+  if dc then [("v3", 2), ("v3", 0), ("v2", ah)] else [("v3", 0), ("v2", ah)]
+
+theorem ins_pre (R : Ro) (st : St) (tag : String) (F : Nat) (ah : Int) (x : Nat)
+    (hx : usubI ↑st.top 1 = ↑x) (hxl : x < 2 ^ 64) (rest : List Stmt) :
+    exec R (seqOf (ins0 :: ins1 :: ins2 :: rest)) F ⟨st, [], [("v2", ah)], [], tag⟩ =
+      exec R (seqOf rest) F ⟨{ st with top := x }, [], insRho0 R.drawCursor ah, [], tag⟩ := by
+  cases hd : R.drawCursor <;>
+  xs [ins0, ins1, ins2, hx, toUint_cast _ hxl, hd, insRho0]
+
+/-- **`insertChildren(ctx, &s, ah)`, executed**: new `top`, new `offset` and the children are
+    `DynList.insertChildren` (called with `top ≥ 1`, as `Draw` does; fuel: one unit per widget above). -/
+theorem ins_exec (R : Ro) (hs : List Nat) (hb : R.b = builder hs) (st : St) (tag : String) (F : Nat) (ah : Int)
+    (h1 : 1 ≤ st.top) (hlt : st.top < 2 ^ 64) (hF : st.top + 1 ≤ F) :
+    proj (exec R (seqOf insParts) F ⟨st, [], [("v2", ah)], [], tag⟩) =
+      some ({ st with top := (insertChildren true R.gap hs st.top ah).1, offset := (insertChildren true R.gap hs st.top ah).2.1 },
+            (insertChildren true R.gap hs st.top ah).2.2, .ret [0]) := by
+  have hu := usub_one st.top (by omega) hlt
+  unfold insParts
+  rw [ins_pre R st tag F ah (usub st.top 1) (toUintI_sub1 _ hlt) (usub_lt _ _)]
+  obtain ⟨ρ', hl, hv⟩ := ins_loop R hs hb st.top { st with top := usub st.top 1 } [] (insRho0 R.drawCursor ah) tag F ah
+    (usub_lt _ _) (by show usub st.top 1 < st.top; omega) (by show usub st.top 1 + 2 ≤ F; omega)
+    (by unfold insRho0; cases R.drawCursor <;> simp [lookup])
+  simp only [] at hl hv
+  rw [seqOf_cons, ins3_eq, exec_loop, hl]
+  simp only []
+  rw [ins_tail R _ _ ρ' tag F _ hv]
+  unfold insertChildren
+  simp only []
+  split <;> rfl
+
 end VaxisModel.Lemmas.DynExec
